@@ -228,14 +228,28 @@ impl TcpNameserver {
     }
 
     async fn send_tcp_query(&mut self, msg: TcpNameserverMessage) -> Result<(), Error> {
-        assert!(
-            self.qid2reply
-                .insert(msg.out_query.qid, msg.out_reply)
-                .is_none()
-        ); // TODO: Collisions!
+        let TcpNameserverMessage {
+            mut out_query,
+            out_reply,
+        } = msg;
+        /* Queries in flight on one connection must not share an id (the ids are drawn at random by
+         * each query on its own): take the next free one.
+         */
+        let mut attempts: u32 = 0;
+        while self.qid2reply.contains_key(&out_query.qid) && attempts < 0x1_0000 {
+            out_query.qid = out_query.qid.wrapping_add(1);
+            attempts += 1;
+        }
+        if self.qid2reply.contains_key(&out_query.qid) {
+            let _ = out_reply.send(Err(Error::Internal(
+                "No free query id left on this connection".into(),
+            )));
+            return Ok(());
+        }
+        self.qid2reply.insert(out_query.qid, out_reply);
         if let Some(ref mut tcp_sock) = self.tcp {
             use tokio::io::AsyncWriteExt as _;
-            let bytes = msg.out_query.serialise();
+            let bytes = out_query.serialise();
             /* There should be a write_all_vectored trait somewhere, but I cannot find it.
              * Bodge it.
              */
